@@ -133,6 +133,42 @@ func HImports() *Harness {
 		var out []Instance
 		for _, sh := range shapes {
 			sh := sh
+			if !hasVendor(sh) { // a vendored spelling only exists in GOPATH mode; it is checked symbolically only
+				out = append(out, Instance{Name: "translator-validation:" + sh.Name, Run: func(ic *IC) *exec.Stats {
+					// the engine in concrete mode (exact replacer) against the real CLI on the same input
+					concrete := map[string]string{}
+					for i, p := range sh.Pkgs {
+						for k := 0; k < p.Segs; k++ {
+							concrete[fmt.Sprintf("p%d_seg%d", i, k)] = []string{"Alpha-x", "beta", "gamma.v2"}[(i+k)%3] + fmt.Sprint(i)
+							concrete[fmt.Sprintf("p%d_seg%dpre", i, k)] = "multi"
+						}
+						concrete[fmt.Sprintf("p%d_name", i)] = "dup" // same name everywhere: forces conflict resolution
+						concrete[fmt.Sprintf("p%d_alias", i)] = fmt.Sprintf("al%d", i)
+					}
+					engine := map[string]string{}
+					st := ic.Explore(func(ex *exec.Exec) {
+						ex.User["concrete"] = concrete
+						ex.User["collectImports"] = &engine
+						runImports(ic, ex, env, sh, bound)
+					})
+					st.Unwinding = nil
+					_, tr, err := env.importsObserve(sh, concrete)
+					real := ""
+					if i := strings.Index(tr, "imports: map["); i >= 0 {
+						real = tr[i+len("imports: "):]
+						real = real[:strings.Index(real, "]")+1]
+					}
+					ic.mu.Lock()
+					if err == nil && real != "" && real == fmt.Sprint(engine) {
+						ic.Validated++
+						ic.Samples = append(ic.Samples, map[string]any{"harness": "H.imports", "translator_validation": sh.Name, "engine_imports": fmt.Sprint(engine), "real_cli_imports": real})
+					} else {
+						ic.Inconcl = append(ic.Inconcl, fmt.Sprintf("translator validation failed for history %s: engine %v vs real CLI %s (%v)", sh.Name, engine, real, err))
+					}
+					ic.mu.Unlock()
+					return st
+				}})
+			}
 			out = append(out, Instance{Name: sh.Name, Run: func(ic *IC) *exec.Stats {
 				ic.StrBound = bound
 				ic.MaxDepth = 16 // candidate aliases are constant beyond level 4: deeper recursion cannot make progress
@@ -351,6 +387,13 @@ func runImports(ic *IC, ex *exec.Exec, env *Env, sh impShape, bound int) {
 	added = append(added, len(sh.Pkgs))
 	ic.Witness(ex, nil)
 	check("adding sync", added)
+	if sink, ok := ex.User["collectImports"].(*map[string]string); ok {
+		for _, e := range registryImports(ex, repo, ir.reg) {
+			q, _ := exec.ConstStr(qualifierOf(ex, e))
+			p, _ := exec.ConstStr(e.Key)
+			(*sink)[q] = p
+		}
+	}
 	if fp, _ := ex.User["fixpoint"].(bool); fp {
 		if kf := env.KF.Open("C15", "fixpoint:source-alias-equals-other-package-name"); kf != nil {
 			for i := range ir.pkgs {
